@@ -70,7 +70,7 @@ impl TryFrom<&str> for HpoTermId {
             return Err(HpoError::ParseIntError);
         }
         Ok(HpoTermId {
-            inner: s[3..].parse::<u32>()?,
+            inner: s.get(3..).ok_or(HpoError::ParseIntError)?.parse::<u32>()?,
         })
     }
 }
